@@ -27,6 +27,8 @@ def catalogue():
         'aarr': [1, 2] * u.deg, 'a30am': 1800 * u.arcmin, 'q180as': 180 * u.arcsec,
         'q1as': 1 * u.arcsec, 'q3am': 3 * u.arcmin, 'q2deg': 2 * u.deg, 'qinf': float('inf') * u.deg,
         'qnan': float('nan') * u.deg,
+        # the next double: still a different value (equality is strict)
+        'f4u': float(np.nextafter(4.0, 5.0)), 'a30u': float(np.nextafter(30.0, 31.0)) * u.deg, 'q2degu': float(np.nextafter(2.0, 3.0)) * u.deg,
         # one-element arrays are not scalars
         'arr1': np.array([2.0]), 'list1': [2.0], 'narr1': np.array([5]), 'parr1': PixCoord([1.0], [2.0]),
         'sarr1': SkyCoord([10.0], [20.0], unit='deg'), 'aarr1': [30.0] * u.deg, 'aAngle1': Angle([45.0], 'deg'), 'qarr1': [2.0] * u.deg,
@@ -112,6 +114,9 @@ class World:
                 return all(self.same(getattr(v, p), getattr(tokval, p)) for p in v._params)
             if isinstance(v, float):
                 return v == tokval or (v != v and tokval != tokval)
+            from astropy.units import Quantity
+            if isinstance(v, Quantity):      # exact: repr() rounds (the next double after 2.0 deg prints like 2.0 deg)
+                return v.unit == tokval.unit and np.shape(v.value) == np.shape(tokval.value) and np.array_equal(v.value, tokval.value, equal_nan=True)
             return repr(v) == repr(tokval)
         except Exception:
             return False
